@@ -79,7 +79,9 @@ def build_case(rec, pool, variant, status_code=None):
         j = [0, 1, len(body) // 2, max(0, len(body) - 1)][variant % 4]
         faults[c.names[fat - 1][0]] = ("cut", j)
     c.payloads = payloads
-    private = ["priv-KEY/with+chars=and space", "s3cr3t&key?x=1#frag%41", "0b9f5c3e-7d1a-4c2b-9e8f-6a5d4c3b2a1f", "ünï-çødé/ключ+鍵"][variant % 4]
+    # (the fifth: characters with a meaning in regular expressions / format strings / shells, unbalanced)
+    private = ["priv-KEY/with+chars=and space", "s3cr3t&key?x=1#frag%41", "0b9f5c3e-7d1a-4c2b-9e8f-6a5d4c3b2a1f", "ünï-çødé/ключ+鍵",
+               "Zk(9pX[secret*7741  +x{2}\\d|%s$(id)`"][(variant + rec["n"] + 2 * rec["fault"]["at"] + len(rec["auth"]) + len(rec["fault"]["kind"])) % 5]
     c.sc = fa.Scenario(project="5f1a2b3c4d5e6f7a8b9c%04d" % (variant % 10000), cluster="Cluster%d" % (variant % 9),
                        conn_hosts=[hp for _, hp in c.names], payloads=payloads, auth=rec["auth"], faults=faults,
                        public=("pubKEY%d" % variant) if variant % 2 == 0 else ("mdb_sa_id_%024x" % variant),
@@ -177,7 +179,7 @@ def events_of(c, obs, complete_outs):
         code = obs["rc"] if obs["rc"] in (0, 1) else 2
         ev.append({"ev": "End", "exit": code, "tmp": len(obs["tmp_left"]), "outs": complete_outs})
     else:
-        ev.append({"ev": "End", "exit": 1 if (obs.get("failed") or obs.get("panic")) else 0, "tmp": len(obs["tmp_left"]), "outs": 0})
+        ev.append({"ev": "End", "exit": 2 if obs.get("panic") else 1 if obs.get("failed") else 0, "tmp": len(obs["tmp_left"]), "outs": 0})
     return ev
 
 
